@@ -206,6 +206,28 @@ func (env *Env) checkWitness(kf *KnownFinding) (bool, string) {
 		}
 		return false, short(tr, 200)
 	}
+	if kind.Kind == "vars" {
+		var w struct {
+			Shape, Dest, Expect string
+			Names               map[string]string
+		}
+		json.Unmarshal(b, &w)
+		for _, sh := range varShapes {
+			if sh.Name == w.Shape {
+				findings, tr, err := env.varsObserve(sh, w.Names, w.Dest)
+				if err != nil {
+					return false, err.Error()
+				}
+				for _, f := range findings {
+					if strings.Contains(f, w.Expect) {
+						return true, f
+					}
+				}
+				return false, short(tr, 300)
+			}
+		}
+		return false, "unknown shape " + w.Shape
+	}
 	var c CLICase
 	if err := json.Unmarshal(b, &c); err != nil || len(c.Files) == 0 {
 		return false, "witness is not a CLI case"
